@@ -6,6 +6,7 @@ import (
 	"bytes"
 	"crypto/sha256"
 	"fmt"
+	"io"
 	"os"
 	"sort"
 	"sync/atomic"
@@ -57,7 +58,8 @@ func vfGenC15(t *rapid.T) vfCaseC15 {
 		n := rapid.IntRange(1, 5).Draw(t, "nops")
 		var prog []vfC15Op
 		for i := 0; i < n; i++ {
-			op := vfC15Op{K: rapid.SampledFrom([]string{"W", "W", "R", "R", "R", "S"}).Draw(t, "k"), H: rapid.IntRange(0, c.Handles-1).Draw(t, "h")}
+			// R/W: ReadAt/WriteAt; RO/WO: Read/Write at the handle's own offset (seed C15-c); S: Stat
+			op := vfC15Op{K: rapid.SampledFrom([]string{"W", "W", "R", "R", "R", "S", "RO", "RO", "WO"}).Draw(t, "k"), H: rapid.IntRange(0, c.Handles-1).Draw(t, "h")}
 			if op.K != "S" {
 				op.N = rapid.IntRange(1, 8).Draw(t, "n")
 				if c.Kind == "os" {
@@ -82,6 +84,21 @@ func vfGenC15(t *rapid.T) vfCaseC15 {
 		}
 		c.Gs = append(c.Gs, prog)
 	}
+	// the offset-based operations of one handle together must stay inside the file (a Read that reaches the
+	// end of the file is not one step)
+	adv := make([]int, c.Handles)
+	for g := range c.Gs {
+		for i := range c.Gs[g] {
+			op := &c.Gs[g][i]
+			if op.K == "RO" || op.K == "WO" {
+				if adv[op.H]+op.N > c.Size {
+					op.K = map[string]string{"RO": "R", "WO": "W"}[op.K]
+					continue
+				}
+				adv[op.H] += op.N
+			}
+		}
+	}
 	if c.Kind == "rs" {
 		c.Gate = rapid.IntRange(0, 3).Draw(t, "gate") != 0
 		c.Release = rapid.SliceOfN(rapid.IntRange(0, 7), 1, 16).Draw(t, "release")
@@ -90,6 +107,7 @@ func vfGenC15(t *rapid.T) vfCaseC15 {
 }
 
 type vfLinOp struct {
+	H         int // handle (offset-based operations)
 	G, I      int
 	Kind      string
 	Off       int
@@ -108,14 +126,15 @@ func vfLinearizable(ops []vfLinOp, init []byte) (bool, string) {
 	type key struct {
 		mask  uint32
 		state string
+		offs  [4]int
 	}
 	seen := map[key]bool{}
-	var rec func(mask uint32, state []byte) bool
-	rec = func(mask uint32, state []byte) bool {
+	var rec func(mask uint32, state []byte, offs [4]int) bool
+	rec = func(mask uint32, state []byte, offs [4]int) bool {
 		if mask == 1<<uint(n)-1 {
 			return true
 		}
-		k := key{mask, string(state)}
+		k := key{mask, string(state), offs}
 		if len(state) > 256 {
 			h := sha256.Sum256(state)
 			k.state = string(h[:])
@@ -139,29 +158,51 @@ func vfLinearizable(ops []vfLinOp, init []byte) (bool, string) {
 			case "W":
 				ns := append([]byte{}, state...)
 				copy(ns[o.Off:], o.Data)
-				if rec(mask|1<<uint(i), ns) {
+				if rec(mask|1<<uint(i), ns, offs) {
 					return true
 				}
 			case "R":
-				if bytes.Equal(state[o.Off:o.Off+len(o.Data)], o.Data) && rec(mask|1<<uint(i), state) {
+				if bytes.Equal(state[o.Off:o.Off+len(o.Data)], o.Data) && rec(mask|1<<uint(i), state, offs) {
+					return true
+				}
+			case "WO":
+				at := offs[o.H%4]
+				if at+len(o.Data) > len(state) {
+					break
+				}
+				ns := append([]byte{}, state...)
+				copy(ns[at:], o.Data)
+				no := offs
+				no[o.H%4] = at + len(o.Data)
+				if rec(mask|1<<uint(i), ns, no) {
+					return true
+				}
+			case "RO":
+				at := offs[o.H%4]
+				if at+len(o.Data) > len(state) || !bytes.Equal(state[at:at+len(o.Data)], o.Data) {
+					break
+				}
+				no := offs
+				no[o.H%4] = at + len(o.Data)
+				if rec(mask|1<<uint(i), state, no) {
 					return true
 				}
 			case "S":
-				if o.Size == int64(len(state)) && rec(mask|1<<uint(i), state) {
+				if o.Size == int64(len(state)) && rec(mask|1<<uint(i), state, offs) {
 					return true
 				}
 			}
 		}
 		return false
 	}
-	if rec(0, init) {
+	if rec(0, init, [4]int{}) {
 		return true, ""
 	}
 	sorted := append([]vfLinOp{}, ops...)
 	sort.Slice(sorted, func(i, j int) bool { return sorted[i].Call < sorted[j].Call })
 	s := ""
 	for _, o := range sorted {
-		s += fmt.Sprintf("  g%d.%d %s off=%d data=%s size=%d  [%d,%d]\n", o.G, o.I, o.Kind, o.Off, vfRuns(o.Data), o.Size, o.Call, o.Ret)
+		s += fmt.Sprintf("  g%d.%d %s handle=%d off=%d data=%s size=%d  [%d,%d]\n", o.G, o.I, o.Kind, o.H, o.Off, vfRuns(o.Data), o.Size, o.Call, o.Ret)
 	}
 	return false, s
 }
@@ -243,9 +284,28 @@ func vfRunC15(ctx *vfCtx, c vfCaseC15) {
 		g := g
 		d, r := vfCall(func() (string, error) {
 			for i, op := range c.Gs[g] {
-				lo := vfLinOp{G: g, I: i, Kind: op.K, Off: op.Off}
+				lo := vfLinOp{G: g, I: i, Kind: op.K, Off: op.Off, H: op.H % len(files)}
 				f := files[op.H%len(files)]
 				switch op.K {
+				case "WO":
+					lo.Data = bytes.Repeat([]byte{tags[g][i]}, op.N)
+					lo.Call = clock.Add(1)
+					n, err := f.Write(lo.Data)
+					lo.Ret = clock.Add(1)
+					if err != nil || n != op.N {
+						opErr.Store(fmt.Sprintf("g%d.%d Write returned n=%d err=%v", g, i, n, err))
+						return "", nil
+					}
+				case "RO":
+					b := make([]byte, op.N)
+					lo.Call = clock.Add(1)
+					n, err := f.Read(b)
+					lo.Ret = clock.Add(1)
+					if n != op.N || (err != nil && err != io.EOF) {
+						opErr.Store(fmt.Sprintf("g%d.%d Read returned n=%d err=%v", g, i, n, err))
+						return "", nil
+					}
+					lo.Data = b
 				case "W":
 					lo.Data = bytes.Repeat([]byte{tags[g][i]}, op.N)
 					lo.Call = clock.Add(1)
@@ -337,6 +397,10 @@ func vfRunC15(ctx *vfCtx, c vfCaseC15) {
 			if i < j && a.Call < b.Ret && b.Call < a.Ret && (a.Kind == "W" || b.Kind == "W") && a.Kind != "S" && b.Kind != "S" &&
 				a.Off < b.Off+len(b.Data) && b.Off < a.Off+len(a.Data) {
 				overlap = true
+			}
+			if i < j && a.Call < b.Ret && b.Call < a.Ret && a.H == b.H && (a.Kind == "RO" || a.Kind == "WO") && (b.Kind == "RO" || b.Kind == "WO") {
+				overlap = true
+				ctx.Class("concurrent-offset-ops-on-one-handle")
 			}
 		}
 	}
